@@ -163,3 +163,4 @@ pub mod ps;
 pub mod mkdrv;
 pub mod g9rt;
 pub mod g5oracle;
+pub mod g9mk;
